@@ -234,6 +234,7 @@ def run(ctx, rep):
     capture_lists_are_complete(F, rep)
     modify_depends_on_the_declared_variable(F, rep)
     fields_supply_no_variable(F, rep)
+    declarations_supply_what_follows(F, rep)
 
 
 
@@ -329,6 +330,37 @@ def fields_supply_no_variable(F, rep, rule="C07.field-supply"):
     rep.ob(rule, "a class field supplies no variable to the methods of its class", "violated" if bad else "ok",
            "MemberVariable::supplies builds a Dependency for the field's name: with `count = 100` at module level and a field `count`, a method that returns `count` "
            "reads the `count` of whoever constructs the object" if bad else "", None, fn=(sup[0] if sup else found["self"]), key=rule)
+
+
+def declarations_supply_what_follows(F, rep, rule="C07.supply-order"):
+    """The type checker reads a block top to bottom: a name used before the block declares it is the variable of an enclosing scope.  The
+    dependency walk has to read it the same way - a declaration cancels the dependencies of the statements after it, not of those before -
+    or `h = fn() -> int { return x }` followed by `x = 3` makes the enclosing function forget that h needs the outer `x`.  The two
+    entry points of Block (as a function body: net_dependencies; as an if / loop body: net_dependencies_within_function) must not go
+    through the order-blind `get_net_dependencies` (all dependencies minus all supplies), and the function they share walks the
+    statements asking each for its net dependencies and its supplies."""
+    BLIND = "compiler::ast::get_net_dependencies"
+    entries = [g for g in F.crates["compiler"].fns if g.kind != "Closure" and (
+        g.path.endswith("function_body::Block as compiler::ast::Dependencies>::net_dependencies") or g.path.endswith("function_body::Block::net_dependencies_within_function"))]
+    rep.floor(rule + " entry points of Block's dependency computation", len(entries), 2)
+    for e in entries:
+        reach, work = [e], [e]
+        for _ in range(2):
+            nxt = []
+            for g in work:
+                for c in g.calls():
+                    h = F.fn(c.callee())
+                    if h is not None and h.path.startswith(("compiler::ast::function_body::", "<compiler::ast::function_body::")) and h not in reach:
+                        reach.append(h)
+                        nxt.append(h)
+            work = nxt
+        blind = [g for g in reach if g.calls_to(BLIND)]
+        walks = [g for g in reach if any(c.callee().endswith("::supplies") for c in g.calls()) and any(c.callee().endswith("::net_dependencies") for c in g.calls())]
+        ok = not blind and bool(walks)
+        rep.ob(rule, "%s: a declaration cancels the dependencies of the statements that follow it only" % mir.short(e.path), "ok" if ok else "violated",
+               "" if ok else ("goes through get_net_dependencies (every dependency of the block minus every supply of the block): `g = fn() { h = fn() -> int { return x } / x = 3 / return h }` "
+                              "inside a function that has `x` does not capture `x`, and fails with `x is not in scope` once that function has returned"),
+               e.span, fn=e.path, key="%s|%s" % (rule, mir.short(e.path)))
 
 
 def fresh_cell_for_new_names_only(F, rep):
